@@ -175,51 +175,42 @@ def _isdigits(b):
 def classify(kind, m0, t):
     """Mechanism classes for: parser accepted `m0` (alleged prefix already stripped) as `kind`
     but to_string() gave t != m0.  Deterministic; returns a sorted list of keys ('SKIP:' = don't care)."""
-    verifier_chk = kind.name in ("CHK-Verifier", "DIR2-CHK-Verifier")
+    junk = "chk-verifier-unanchored" if kind.name in ("CHK-Verifier", "DIR2-CHK-Verifier") else "accepts-trailing-junk"
     if m0 == t + b"\n":
         return ["accepts-trailing-newline"]
-    if m0.startswith(t):
-        extra = m0[len(t):]
-        if kind.shape == "mdmf" and extra.startswith(b":"):
-            return ["SKIP:mdmf-extension"]
-        return ["chk-verifier-unanchored" if verifier_chk else "accepts-trailing-junk"]
+    if kind.shape == "mdmf" and m0.startswith(t + b":"):
+        return ["SKIP:mdmf-extension"]
     keys = set()
-    x = m0
-    xs, ts = x.split(b":"), t.split(b":")
-    if len(xs) > len(ts):
-        if kind.shape == "mdmf":
-            keys.add("SKIP:mdmf-extension")
-        else:
-            keys.add("chk-verifier-unanchored" if verifier_chk else "accepts-trailing-junk")
-        xs = xs[:len(ts)]
-    elif len(xs) < len(ts):
+    xs, ts = m0.split(b":"), t.split(b":")
+    if len(xs) < len(ts):
         return ["accepts-nonroundtrip-other"]
+    if len(xs) > len(ts):
+        keys.add(junk)            # whole extra ':'-separated fields were dropped
+        xs = xs[:len(ts)]
     for i, (xf, tf) in enumerate(zip(xs, ts)):
         if xf == tf:
             continue
-        last = i == len(ts) - 1
-        if last and xf == tf + b"\n":
-            keys.add("accepts-trailing-newline")
-            continue
-        if last and xf.endswith(b"\n"):
-            keys.add("accepts-trailing-newline")
-            xf = xf[:-1]
-        if _isdigits(tf) and last and xf.startswith(tf) and not _isdigits(xf):
-            keys.add("chk-verifier-unanchored" if verifier_chk else "accepts-trailing-junk")
-            continue
-        if _isdigits(tf) and last and not _isdigits(xf):
-            # e.g. "010junk": digits then junk
-            j = 0
-            while j < len(xf) and 48 <= xf[j] <= 57:
-                j += 1
-            keys.add("chk-verifier-unanchored" if verifier_chk else "accepts-trailing-junk")
-            xf = xf[:j]
+        if i == len(ts) - 1:
+            # the last field may carry a dropped tail
+            if xf.endswith(b"\n") and len(m0.split(b":")) == len(ts):
+                keys.add("accepts-trailing-newline")
+                xf = xf[:-1]
+            if _isdigits(tf):
+                j = 0
+                while j < len(xf) and 48 <= xf[j] <= 57:
+                    j += 1
+                if j < len(xf):
+                    keys.add(junk)
+                    xf = xf[:j]
+            elif xf.startswith(tf):
+                keys.add(junk)
+                xf = tf
             if xf == tf:
                 continue
         if _isdigits(xf) and _isdigits(tf) and int(xf) == int(tf):
             keys.add("accepts-noncanonical-integer")
             continue
-        dx, dt = M.b32dec_lenient(xf.lower()), M.b32dec_lenient(tf)
+        dx, dt = M.b32dec_lenient(xf), M.b32dec_lenient(tf)
         if dx is not None and dx == dt:
             keys.add("accepts-noncanonical-base32")
             continue
